@@ -1,13 +1,11 @@
 package values
 
 import (
+	"cmp"
 	"reflect"
 )
 
-var (
-	int64Type   = reflect.TypeOf(int64(0))
-	float64Type = reflect.TypeOf(float64(0))
-)
+var float64Type = reflect.TypeOf(float64(0))
 
 // Equal returns a bool indicating whether a == b after conversion.
 func Equal(a, b any) bool { //nolint: gocyclo
@@ -29,8 +27,9 @@ func Equal(a, b any) bool { //nolint: gocyclo
 		return true
 	case reflect.Bool:
 		return ra.Bool() == rb.Bool()
-	case reflect.Int, reflect.Int8, reflect.Int16, reflect.Int32, reflect.Int64:
-		return ra.Convert(int64Type).Int() == rb.Convert(int64Type).Int()
+	case reflect.Int, reflect.Int8, reflect.Int16, reflect.Int32, reflect.Int64,
+		reflect.Uint, reflect.Uint8, reflect.Uint16, reflect.Uint32, reflect.Uint64:
+		return compareInts(ra, rb) == 0
 	case reflect.Float32, reflect.Float64:
 		return ra.Convert(float64Type).Float() == rb.Convert(float64Type).Float()
 	case reflect.String:
@@ -80,8 +79,9 @@ func Less(a, b any) bool {
 	switch joinKind(ra.Kind(), rb.Kind()) {
 	case reflect.Bool:
 		return !ra.Bool() && rb.Bool()
-	case reflect.Int, reflect.Int8, reflect.Int16, reflect.Int32, reflect.Int64:
-		return ra.Convert(int64Type).Int() < rb.Convert(int64Type).Int()
+	case reflect.Int, reflect.Int8, reflect.Int16, reflect.Int32, reflect.Int64,
+		reflect.Uint, reflect.Uint8, reflect.Uint16, reflect.Uint32, reflect.Uint64:
+		return compareInts(ra, rb) < 0
 	case reflect.Float32, reflect.Float64:
 		return ra.Convert(float64Type).Float() < rb.Convert(float64Type).Float()
 	case reflect.String:
@@ -100,7 +100,8 @@ func joinKind(a, b reflect.Kind) reflect.Kind { //nolint: gocyclo
 		if b == reflect.Array || b == reflect.Slice {
 			return reflect.Slice
 		}
-	case reflect.Int, reflect.Int8, reflect.Int16, reflect.Int32, reflect.Int64:
+	case reflect.Int, reflect.Int8, reflect.Int16, reflect.Int32, reflect.Int64,
+		reflect.Uint, reflect.Uint8, reflect.Uint16, reflect.Uint32, reflect.Uint64:
 		if isIntKind(b) {
 			return reflect.Int64
 		}
@@ -120,7 +121,37 @@ func isIntKind(k reflect.Kind) bool {
 	case reflect.Int, reflect.Int8, reflect.Int16, reflect.Int32, reflect.Int64:
 		return true
 	default:
+		return isUintKind(k)
+	}
+}
+
+func isUintKind(k reflect.Kind) bool {
+	switch k {
+	case reflect.Uint, reflect.Uint8, reflect.Uint16, reflect.Uint32, reflect.Uint64:
+		return true
+	default:
 		return false
+	}
+}
+
+// compareInts compares two values of signed or unsigned integer kinds by numeric value.
+// The result is negative if a < b, zero if a == b, and positive if a > b.
+func compareInts(a, b reflect.Value) int {
+	switch ua, ub := isUintKind(a.Kind()), isUintKind(b.Kind()); {
+	case ua && ub:
+		return cmp.Compare(a.Uint(), b.Uint())
+	case ua:
+		if b.Int() < 0 {
+			return 1
+		}
+		return cmp.Compare(a.Uint(), uint64(b.Int()))
+	case ub:
+		if a.Int() < 0 {
+			return -1
+		}
+		return cmp.Compare(uint64(a.Int()), b.Uint())
+	default:
+		return cmp.Compare(a.Int(), b.Int())
 	}
 }
 
